@@ -16,7 +16,7 @@ Case (kind "session"): {"kind": "session", "ops": [op, ...], "n_pre": k} - a seq
 A cast observation of an ARRAY with an element type also carries "ew": the outcome of OrsoTypes.<element type>.parse(item) for every item.
 
 Encoded values: None | ["b", bool] | ["i", hex] | ["f", 16 hex digits of the IEEE bits] | ["s", text] |
-  ["y", hex bytes] | ["d", y, m, d] | ["t", y, m, d, h, mi, s, us] | ["D", sign, digits, exp] |
+  ["y", hex bytes] | ["d", y, m, d] | ["t", y, m, d, h, mi, s, us] | ["T", y, m, d, h, mi, s, us, utc offset in seconds] (zone-aware) | ["D", sign, digits, exp] |
   ["D", sign, "inf"|"nan"|"snan", payload] | ["l"|"u"|"e", [items]]  (list / tuple / set in iteration order).
 Observation: {"ok": encoded result} | {"exc": canonical exception name}, plus "x" (the input as built, sets in
   their iteration order) and "tabs" (what CPython / orjson return on the library calls the cast makes)."""
@@ -54,12 +54,17 @@ LEVEL_TEXT = ("Machine-checked Coq theorems over an executable model of the cast
               "implementation's own element casts of its items. Round 5: the caller's decimal context is an explicit environment of a cast "
               "(C07_env_independent: only the precision of a DECIMAL column declared without one is read from it); casts are re-run under seven non-default contexts and must "
               "equal the model and the same cast under the default context; BOOLEAN of any text / bytes must be exactly 'upper-cased input is a "
-              "documented word' (padded words are False).")
+              "documented word' (padded words are False). Round 7: zone-aware date-times (tzinfo a fixed offset of whole seconds) are values of the "
+              "model (PAware): TIMESTAMP of one keeps its zone, to whole seconds, is never the naive reading, is idempotent, its DATE is its "
+              "calendar date (C07_timestamp_zone_aware), and a TIMESTAMP result is zone-aware exactly when the input is a native zone-aware value, "
+              "with the same offset (C07_timestamp_zone_kept); such values are cast directly, as column defaults, by type name, as array items, "
+              "in sessions and to every other type, and the oracle compares date-times with their zone.")
 LEVEL_NOTE = ("Trusted: Coq kernel + vm_compute; the hand-written models of int()/str() on integers, Decimal syntax / rounding / quantize / "
               "__str__, str.upper/strip, truthiness, float(int) (validated against CPython by the correspondence, not verified); Model/C08.v "
               "(and its proofs) for parse_iso, int(str) and UTF-8. Oracles (Section variables instantiated per case with what the library "
               "returned): float(str), float(bytes), repr(float), orjson.loads, orjson.dumps, str() of containers. Not modelled: dict values, "
-              "numpy / pyarrow scalars, TIME and INTERVAL parsers (null only), tz-aware datetimes; int(Decimal) with |exponent| > 5000 is not "
+              "numpy / pyarrow scalars, TIME and INTERVAL parsers (null only), zone-aware datetimes whose tzinfo is not a datetime.timezone of whole seconds (zoneinfo, "
+              "sub-second offsets; the name of a zone is not part of the value); int(Decimal) with |exponent| > 5000 is not "
               "evaluated in Coq. Known finding F-C07-5 (JSON integers outside 64 bits) is guarded by input class (see notes/C07.md). "
               "Type names are modelled from their structure (the regular expressions of _parse_type are not; the harness prints the text, upper or "
               "lower case). Statelessness is a property of the model by construction; that the implementation has it is tested (sessions), "
@@ -84,6 +89,9 @@ RULE = ("per value type: typed values (booleans; integers small, at 2^63/2^64 an
         "Caller contexts: 7 fixed non-default decimal contexts (ExtendedContext, no traps, all traps, Emax 9 / Emin -9, prec 5 ROUND_DOWN, clamp, "
         "prec 1 ROUND_UP) x ~80 fixed casts through every step of DecimalFactory and one or two of every other type; half of the grid cases a "
         "second time under a rotating context; 6 % of the random cases. Every documented truthy word x 3 spellings x 10 paddings, text and bytes. "
+        "Zone-aware date-times: 6 moments x 5 fixed-offset zones (UTC, +05:30, -08:00 named, -07:59:30, +23:59) cast natively to TIMESTAMP "
+        "(parse, column, column by name, already whole seconds), DATE, as ARRAY<TIMESTAMP> items (list / tuple, nulls, mixed with naive), in 3-cast "
+        "sessions naive / aware / naive, their text renderings and every other type; 30 % of the random date-times carry one of 14 offsets. "
         "A case is non-trivial when the input is not None; distinct by canonical JSON of (type, kwargs, input, column?, context) / of the operations")
 TRUSTED = [
     "C07 model (coq/Model/C07.v) of OrsoTypes.parse, the per-type parsers, parse_decimal, DecimalFactory.__call__, FlatColumn default casting; "
@@ -377,7 +385,12 @@ def enc(o):
         return ["d", o.year, o.month, o.day]
     if t is datetime.datetime:
         if o.tzinfo is not None:
-            raise Unmodelled("aware datetime")
+            # round 7: a zone-aware value is modelled when its zone is a fixed offset of whole seconds (datetime.timezone);
+            # the offset is part of the value (the name of the zone is not: timezone equality ignores it)
+            off = o.utcoffset()
+            if type(o.tzinfo) is not datetime.timezone or off is None or off.microseconds:
+                raise Unmodelled("aware datetime with a zone that is not a whole-second datetime.timezone")
+            return ["T", o.year, o.month, o.day, o.hour, o.minute, o.second, o.microsecond, off.days * 86400 + off.seconds]
         return ["t", o.year, o.month, o.day, o.hour, o.minute, o.second, o.microsecond]
     if t is decimal.Decimal:
         s, ds, e = o.as_tuple()
@@ -416,6 +429,8 @@ def dec(e):
         return datetime.date(e[1], e[2], e[3])
     if k == "t":
         return datetime.datetime(*e[1:8])
+    if k == "T":
+        return datetime.datetime(*e[1:8], tzinfo=datetime.timezone(datetime.timedelta(seconds=e[8])))
     if k == "D":
         if e[2] == "inf":
             return decimal.Decimal((e[1], (0,), "F"))
@@ -884,6 +899,10 @@ def _same(a, b, nan_any=False):
         return a == b
     if type(a) is list:
         return len(a) == len(b) and all(_same(p, q, nan_any) for p, q in zip(a, b))
+    if type(a) is datetime.datetime:
+        # equal as VALUES: same wall-clock reading to the microsecond AND the same zone (both naive, or the same UTC offset);
+        # datetime.__eq__ alone would accept another reading of the same instant in another zone
+        return a.replace(tzinfo=None) == b.replace(tzinfo=None) and (a.tzinfo is None) == (b.tzinfo is None) and a.utcoffset() == b.utcoffset()
     # "timestamps to whole seconds": _expected hands over the value reduced to whole seconds and the
     # result must BE that value (microsecond 0) - a result that kept the sub-second part is not equal
     return a == b
@@ -980,7 +999,9 @@ def _expected(case):
     if t == "DATE" and type(v) is datetime.date and r in ("native", "str", "bytes"):
         return ("eq", v, False)
     if t == "TIMESTAMP" and type(v) is datetime.datetime and r in ("native", "str", "iso", "bytes"):
-        return ("eq", v.replace(microsecond=0), False)
+        if v.tzinfo is not None and r != "native":
+            return None     # text with a UTC offset is read for its wall-clock time (C08): no round trip is claimed
+        return ("eq", v.replace(microsecond=0), False)     # replace keeps the zone: a zone-aware value comes back zone-aware
     if t == "ARRAY" and type(v) is list and r in ("native", "tuple", "set", "json", "jsonbytes"):
         et = kw.get("element_type")
         if et is None:
@@ -990,6 +1011,8 @@ def _expected(case):
         else:
             cls = VALUE_CLASS.get(et)
             if cls is None or et == "ARRAY" or not all(e is None or type(e) is cls for e in v):
+                return None
+            if et == "TIMESTAMP" and r not in ("native", "tuple", "set") and any(e is not None and e.tzinfo is not None for e in v):
                 return None
             if et == "DECIMAL" and not all(e is None or (e.is_finite() and _sig_digits(e) <= 38 and -21 <= e.as_tuple().exponent <= 0) for e in v):
                 return None
@@ -1269,6 +1292,8 @@ def c_pyval(e):
         return "(PDate %s %s %s)" % tuple(c_Z(z) for z in e[1:4])
     if k == "t":
         return "(PDatetime %s)" % " ".join(c_Z(z) for z in e[1:8])
+    if k == "T":
+        return "(PAware %s)" % " ".join(c_Z(z) for z in e[1:9])
     if k == "D":
         if e[2] == "inf":
             return "(PDecimal (DInf %s))" % c_bool(e[1])
@@ -1410,7 +1435,7 @@ def classify(case, obs):
     yield "via:" + ("FlatColumn" if case.get("col") else "parse")
     yield "render:" + case.get("r", "other")
     x = case["x"]
-    yield "input:" + ("None" if x is None else {"b": "bool", "i": "int", "f": "float", "s": "str", "y": "bytes", "d": "date", "t": "datetime",
+    yield "input:" + ("None" if x is None else {"b": "bool", "i": "int", "f": "float", "s": "str", "y": "bytes", "d": "date", "t": "datetime", "T": "aware-datetime",
                                                   "D": "Decimal", "l": "list", "u": "tuple", "e": "set"}[x[0]])
     yield "outcome:" + ("raise " + obs["exc"] if "exc" in obs else "ok")
     if "unmodelled" in obs:
@@ -1462,7 +1487,50 @@ def _rand_dt(rng):
     d = _rand_date(rng)
     us = rng.choice([0, 0, 1, 500000, 999999, rng.randint(0, 999999)])
     h, mi, s = rng.choice([(0, 0, 0), (23, 59, 59), (12, 0, 0), (rng.randint(0, 23), rng.randint(0, 59), rng.randint(0, 59))])
-    return datetime.datetime(d.year, d.month, d.day, h, mi, s, us)
+    tz = None
+    if rng.random() < 0.3:      # round 7: a zone-aware value (fixed offset)
+        tz = datetime.timezone(datetime.timedelta(seconds=rng.choice(_ZONE_OFFSETS)))
+    return datetime.datetime(d.year, d.month, d.day, h, mi, s, us, tzinfo=tz)
+
+
+# UTC, whole hours, half / quarter hours, both signs, the extremes of datetime.timezone, one with seconds
+_ZONE_OFFSETS = [0, 3600, -3600, 19800, -28800, 20700, 45900, -34200, 86340, -86340, 50400, -43200, 1, -28770]
+
+
+def _aware_corpus():
+    """round 7: native zone-aware date-times through every cast that can see one - directly, as a column default, as a
+    column declared by name, as array items (list / tuple, with nulls, every element type), to every other type, twice"""
+    moments = [(2023, 4, 18, 12, 34, 56, 0), (2023, 4, 18, 12, 34, 56, 789012), (1969, 12, 31, 23, 59, 59, 999999), (2000, 2, 29, 0, 0, 0, 1),
+               (1, 1, 1, 0, 0, 0, 0), (9999, 12, 31, 23, 59, 59, 999999)]
+    zones = [datetime.timezone.utc, datetime.timezone(datetime.timedelta(hours=5, minutes=30)), datetime.timezone(datetime.timedelta(hours=-8), "PST"),
+             datetime.timezone(datetime.timedelta(seconds=-28770)), datetime.timezone(datetime.timedelta(hours=23, minutes=59))]
+    naive0 = datetime.datetime(*moments[1])
+    for i, mo in enumerate(moments):
+        for j, z in enumerate(zones):
+            a = datetime.datetime(*mo, tzinfo=z)
+            yield from rendered("TIMESTAMP", a, ["native"])
+            yield from rendered("TIMESTAMP", a, ["native"], {}, True)
+            yield from rendered("TIMESTAMP", a.replace(microsecond=0), ["native"])        # casting twice is casting once
+            yield C("DATE", enc(a), {}, (i + j) % 2 == 0)
+            yield from rendered("ARRAY", [a, None], ["native", "tuple"], {"element_type": "TIMESTAMP"}, (i + j) % 3 == 0)
+            yield from rendered("ARRAY", [naive0, a, a.replace(microsecond=0)], ["native"], {"element_type": "TIMESTAMP"})
+            c = list(rendered("ARRAY", [a], ["native"], {"element_type": "TIMESTAMP"}, True))[0]
+            yield {"kind": "session", "ops": [{"op": "decl", "tn": ["ARRAY", "TIMESTAMP"], "kw": {}, "x": c["x"], "v": c["v"], "r": c["r"]}], "n_pre": 0}
+            c = list(rendered("TIMESTAMP", a, ["native"], {}, True))[0]
+            yield {"kind": "session", "ops": [{"op": "decl", "tn": ["plain", "TIMESTAMP"], "kw": {}, "x": c["x"], "v": c["v"], "r": c["r"]}], "n_pre": 0}
+            # a naive cast first, then the zone-aware one, then the naive one again (nothing is carried from one cast to the next)
+            n = list(rendered("TIMESTAMP", naive0, ["native"]))[0]
+            w = list(rendered("TIMESTAMP", a, ["native"], {}, j % 2 == 1))[0]
+            yield {"kind": "session", "ops": [_as_op(n), _as_op(w), _as_op(n)], "n_pre": 1}
+            if i < 3:
+                # text / bytes renderings (the offset is read away or the text is rejected: judged by the model) and every other type
+                for r in ("str", "iso", "bytes"):
+                    yield from rendered("TIMESTAMP", a, [r])
+                for t in ("VARCHAR", "BLOB", "BOOLEAN", "INTEGER", "DOUBLE", "DECIMAL", "ARRAY", "STRUCT", "JSONB", "NULL", "TIME"):
+                    yield C(t, enc(a), {"length": 22} if t in ("VARCHAR", "BLOB") and j == 1 else {}, j == 2)
+                yield C("_MISSING_TYPE", enc(a), {}, True)
+                for et in ("DATE", "VARCHAR", "BLOB", "INTEGER", "BOOLEAN", None):
+                    yield C("ARRAY", enc([a, None]), {} if et is None else {"element_type": et})
 
 
 def _rand_text(rng):
@@ -1936,6 +2004,7 @@ def corpus():
     yield from _env_corpus()
     yield from _session_corpus()
     yield from _typed_arrays()
+    yield from _aware_corpus()
     # F-C07-1 (fixed 1f60a67): DECIMAL.parse(Decimal) raised AttributeError
     yield C("DECIMAL", enc(D("1.5")), {}, False, enc(D("1.5")), "native", True)
     yield C("DECIMAL", enc(D("1.5")), {"precision": 5, "scale": 3}, False, enc(D("1.5")), "native", True)
